@@ -221,6 +221,51 @@ example : WF ⟨false⟩ ⟨0, [], 0⟩ (.divSat SC.I32min (-1)) ∧ pre ⟨fals
     WF ⟨false⟩ ⟨0, [], 0⟩ (.bit 2 8 255) ∧ pre ⟨false⟩ ⟨0, [], 0⟩ (.bit 2 8 255) = false :=
   ⟨by simp only [WF]; decide, by decide, by simp only [WF]; decide, by decide⟩
 
+/-- non-vacuity of the conditions of the members that are driven directly (samples): a full static_vector<int, 3> move_insert,
+    a new size beyond the capacity for the storage's / inplace_vector's / inplace_string's unsafe_set_size, an unsafe_destroy with
+    `last` beyond `end()`, a member of inplace_vector<T, 0> -/
+example : WF ⟨false⟩ ⟨3, [1, 2], 0⟩ (.svMoveInsert .triv 1 [7, 8] true) ∧ pre ⟨false⟩ ⟨3, [1, 2], 0⟩ (.svMoveInsert .triv 1 [7, 8] true) = false :=
+  ⟨by simp only [WF, StorOk, St.Inv]; decide, by decide⟩
+example : WF ⟨false⟩ ⟨3, [1, 2], 0⟩ (.svUnsafeSetSize .nontriv 4) ∧ pre ⟨false⟩ ⟨3, [1, 2], 0⟩ (.svUnsafeSetSize .nontriv 4) = false ∧
+    WF ⟨true⟩ ⟨3, [1, 2], 0⟩ (.ivUnsafeSetSize (U64 - 1)) ∧ pre ⟨true⟩ ⟨3, [1, 2], 0⟩ (.ivUnsafeSetSize (U64 - 1)) = false ∧
+    WF ⟨true⟩ ⟨4, [97], 0⟩ (.strUnsafeSetSize 1) ∧ pre ⟨true⟩ ⟨4, [97], 0⟩ (.strUnsafeSetSize 1) = true ∧
+    WF ⟨false⟩ ⟨3, [1, 2], 0⟩ (.svUnsafeDestroy 1 3) ∧ pre ⟨false⟩ ⟨3, [1, 2], 0⟩ (.svUnsafeDestroy 1 3) = false ∧
+    WF ⟨false⟩ ⟨0, [], 0⟩ .ivPop ∧ pre ⟨false⟩ ⟨0, [], 0⟩ .ivPop = false :=
+  ⟨by simp only [WF, StorOk, St.Inv]; decide, by decide, by simp only [WF]; decide, by decide, by simp only [WF]; decide, by decide,
+   by simp only [WF]; decide, by decide, by simp only [WF, St.Inv]; decide, by decide⟩
+
+/-- `bitset::to_ulong()` / `to_ullong()` (`digits` = the width of the result type): when the value of the bitset can be
+    represented ([bitset.members]), the call returns it (printed as low / high 32-bit half) - none of the checks it goes
+    through (`not test(i)` in the fits loop, `test`, `unchecked_test`, `set_bit`) fires, nothing outside the bits is read. -/
+theorem toUnsigned_fits (d : Nat) (cfg : Cfg) (s : St) (h : bitsVal s.elems < 2 ^ d) :
+    run (.bsToU d) cfg s = .ok [((bitsVal s.elems % 4294967296 : Nat) : Int), ((bitsVal s.elems / 4294967296 : Nat) : Int)] s := by
+  have hok : pre cfg s (.bsToU d) = true := by simp [pre, doc, h]
+  exact valid_never_asserts (.bsToU d) cfg s rfl trivial hok
+
+/-- … and when it cannot (std::bitset throws overflow_error exactly here) the handler runs at the `not test(i)` site of
+    `to_unsigned_type` with the bitset unchanged. -/
+theorem toUnsigned_overflow (d : Nat) (cfg : Cfg) (s : St) (h : 2 ^ d ≤ bitsVal s.elems) :
+    run (.bsToU d) cfg s = .assert BS.kToU s := by
+  have hbad : pre cfg s (.bsToU d) = false := by simp [pre, doc]; omega
+  obtain ⟨k, hk, hm⟩ := violation_asserts (.bsToU d) cfg s rfl trivial hbad
+  simp only [doc, List.mem_singleton, Prod.mk.injEq] at hm
+  rw [hk, hm.1]; rfl
+
+/-- the standard's clause and the condition the code tests are the same: the value is representable in `d` digits iff no
+    bit at a position `>= d` is set -/
+theorem toUnsigned_representable_iff (l : List Int) (d : Nat) :
+    bitsVal l < 2 ^ d ↔ (l.drop d).all (fun b => b == 0) = true := by
+  rw [bitsVal_lt_iff]
+  generalize l.drop d = m
+  induction m with
+  | nil => simp [bitsVal]
+  | cons b bs ih =>
+    simp only [bitsVal, List.all_cons, Bool.and_eq_true, beq_iff_eq, ← ih]
+    by_cases hb : b = 0 <;> simp [hb] <;> omega
+
+/-- samples: bitset<70> with bit 64 set, `to_ullong()` (64 digits) overflows; bitset<5> = 0b01101 returns 13 -/
+example : 2 ^ 64 ≤ bitsVal (List.replicate 64 0 ++ [1, 0, 0, 0, 0, 0]) ∧ bitsVal [1, 0, 1, 1, 0] = 13 := by decide
+
 /-- F-C05-replace-pre, the provable part: a `replace(pos, count, ...)` call outside the excluded class
     (`pos + count < size()`, hence valid) returns the specified result and never reaches the handler. -/
 theorem replace_valid_partial (k pos count : Nat) (src : List Int) (cfg : Cfg) (s : St) (hx : ¬ ReplaceExcluded s pos count)
